@@ -6,7 +6,7 @@ use rayon::iter::IntoParallelIterator;
 use crate::graph::graph_node::GraphNode;
 use crate::graph::Graph;
 use crate::model::node::{NodeIter, NodePointer};
-use crate::model::NodeId;
+use crate::model::{Key, NodeId};
 use rayon::prelude::*;
 
 use super::GraphContext;
@@ -86,10 +86,9 @@ pub fn graph_to_paths(graph: &Graph) -> Vec<NodePath> {
         .flat_map(|node| paths_for_node(graph, node.id(), &mut HashSet::new()))
         .filter(|path| !path.ids.is_empty())
         .filter(|path| {
+            // a listing starts at a top-level heading of a note that no heading includes
             // (through the graph, which ignores references from removed versions of notes)
-            graph
-                .get_block_references_to(&graph.node_key(path.first_id()))
-                .is_empty()
+            !is_included(graph, &graph.node_key(path.first_id()), &mut HashSet::new())
                 && graph
                     .node(path.first_id())
                     .to_parent()
@@ -99,6 +98,24 @@ pub fn graph_to_paths(graph: &Graph) -> Vec<NodePath> {
         .collect();
 
     paths.into_iter().sorted().dedup().collect_vec()
+}
+
+/// A note is included when a block reference to it stands directly under a heading, or at the
+/// top of a note without headings that is itself included.  A reference inside a quote or a
+/// list item leads to no heading, so its target still starts its own paths.
+fn is_included(graph: &Graph, key: &Key, seen: &mut HashSet<Key>) -> bool {
+    if !seen.insert(key.clone()) {
+        return true;
+    }
+    graph.get_block_references_to(key).iter().any(|id| {
+        match graph.node(*id).to_parent() {
+            Some(parent) if parent.is_section() && !parent.is_in_list() => true,
+            Some(parent) if parent.is_document() => parent
+                .document_key()
+                .map_or(false, |parent_key| is_included(graph, &parent_key, seen)),
+            _ => false,
+        }
+    })
 }
 
 fn paths_for_node(graph: &Graph, id: NodeId, nodes: &mut HashSet<NodeId>) -> Vec<NodePath> {
